@@ -182,13 +182,18 @@ impl Service for SimService {
                     }
                     st.ends = *ends;
                     st.created = true;
-                    if w.eager_streams.iter().any(|e| e.0 == *cid && e.1 == *seq) {
+                    if w.eager_all || w.eager_streams.iter().any(|e| e.0 == *cid && e.1 == *seq) {
                         // every item is ready from the start
                         while let Some(it) = st.script.pop_front() {
                             st.available.push_back(it);
                             st.produced += 1;
                         }
                         w.stat("streams_that_are_never_pending_until_exhausted");
+                        if st.ends {
+                            // ... including its end: `None` comes right after the last item (for an
+                            // empty stream: on the very first poll)
+                            st.ended = true;
+                        }
                     }
                     if let Some((_, _, from, gate)) = w.stream_gates.iter().find(|g| g.0 == *cid && g.1 == *seq).cloned() {
                         st.gate_from = from;
